@@ -38,6 +38,7 @@ import (
 	"sync"
 	"time"
 
+	"github.com/opencontainers/go-digest"
 	ocispec "github.com/opencontainers/image-spec/specs-go/v1"
 	"oras.land/oras-go/v2/content"
 	"oras.land/oras-go/v2/content/file"
@@ -1018,6 +1019,17 @@ func (e *xstore) do(op string) {
 				}
 			}
 		}
+	case "alg":
+		// the node is addressed by another digest algorithm (its descriptor, as embedded in the
+		// manifests that reference it, was built with it)
+		a, alg, _ := strings.Cut(arg, ":")
+		i, err := strconv.Atoi(a)
+		if err != nil || !e.valid(i) || !digest.Algorithm(alg).Available() {
+			return
+		}
+		e.u.g.Nodes[i].Desc.Digest = digest.Algorithm(alg).FromBytes(e.u.g.Nodes[i].Bytes)
+		e.u = newUniverse(e.u.g)
+		return
 	case "autosave":
 		if e.ociSt == nil {
 			return
@@ -2235,19 +2247,36 @@ func genChain(r *common.Rand, origin string) {
 		enc = append(enc, dag.Encoded{Kind: kind, MediaType: mt, Bytes: b, Succ: succ, Subject: subject, TwinOf: -1})
 		return len(enc) - 1
 	}
+	// some nodes are addressed by sha512 / sha384 digests: other blob directory, blob paths
+	// longer than a classic tar header name (PAX records in the archive read by NewFromTar)
+	algs := map[int]digest.Algorithm{}
+	longDigests := r.Chance(1, 2)
 	descOf := func(i int) ocispec.Descriptor {
-		return content.NewDescriptorFromBytes(enc[i].MediaType, enc[i].Bytes)
+		d := content.NewDescriptorFromBytes(enc[i].MediaType, enc[i].Bytes)
+		if a, ok := algs[i]; ok {
+			d.Digest = a.FromBytes(enc[i].Bytes)
+		}
+		return d
+	}
+	pickAlg := func(i int) {
+		if longDigests && r.Chance(1, 2) {
+			algs[i] = common.Pick(r, []digest.Algorithm{digest.SHA512, digest.SHA512, digest.SHA384})
+		}
 	}
 	salt := r.U64()
 	cfg := add(dag.KConfig, ocispec.MediaTypeImageConfig, []byte(fmt.Sprintf(`{"verif":"%x"}`, salt)), nil, -1)
+	pickAlg(cfg)
 	layer := add(dag.KBlob, ocispec.MediaTypeImageLayer, []byte(fmt.Sprintf("layer-%x", salt)), nil, -1)
+	pickAlg(layer)
 	var images []int
 	for i := 0; i < 1+r.Intn(3); i++ {
 		m := ocispec.Manifest{MediaType: ocispec.MediaTypeImageManifest, Config: descOf(cfg), Layers: []ocispec.Descriptor{descOf(layer)},
 			Annotations: map[string]string{"verif.id": fmt.Sprintf("%d-%x", i, salt)}}
 		m.SchemaVersion = 2
 		b, _ := json.Marshal(m)
-		images = append(images, add(dag.KImage, ocispec.MediaTypeImageManifest, b, []int{cfg, layer}, -1))
+		id := add(dag.KImage, ocispec.MediaTypeImageManifest, b, []int{cfg, layer}, -1)
+		pickAlg(id)
+		images = append(images, id)
 	}
 	// a tower of indexes: level k lists the level below
 	level := images
@@ -2263,6 +2292,7 @@ func genChain(r *common.Rand, origin string) {
 		}
 		b, _ := json.Marshal(ix)
 		id := add(dag.KIndex, ocispec.MediaTypeImageIndex, b, succ, -1)
+		pickAlg(id)
 		tower = append(tower, id)
 		level = []int{id}
 	}
@@ -2273,6 +2303,14 @@ func genChain(r *common.Rand, origin string) {
 		panic(err)
 	}
 	defer e.close()
+	for i := 0; i < len(enc); i++ {
+		if a, ok := algs[i]; ok {
+			e.do(fmt.Sprintf("alg:%d:%s", i, a))
+		}
+	}
+	if len(algs) > 0 {
+		run.Count("chain-with-sha512-or-sha384")
+	}
 	order := make([]int, len(enc))
 	for i := range order {
 		order[i] = i
@@ -2553,7 +2591,7 @@ func coverageFloors() []string {
 		"history-with-autogc-cascade": 5, "reopen-dir": 40, "reopen-fs": 15, "reopen-tar": 15,
 		"foreign-roots-only-index": 10, "push-concurrent": 40, "order-parents-first": 40,
 		"order-children-first": 40, "order-shuffled": 40, "query-absent-node-with-preds": 500,
-		"tag-non-manifest": 5, "delete-absent": 5, "phase2-concurrent-push": 10, "autosave-off": 12, "saveindex": 8,
+		"chain-with-sha512-or-sha384": 8, "tag-non-manifest": 5, "delete-absent": 5, "phase2-concurrent-push": 10, "autosave-off": 12, "saveindex": 8,
 		"links-dockermanifest": 40, "links-imagemanifest": 40, "links-dockerlist": 40, "links-imageindex": 40,
 		"links-artifact": 40, "links-other": 40,
 	}
